@@ -3,6 +3,7 @@ import WhVerif.Spec.C01
 import WhVerif.Model.C01Gray
 import WhVerif.Model.C01Witness
 import WhVerif.Model.C01Ckpt
+import WhVerif.Model.C01Query
 import WhVerif.Model.C01U32
 import WhVerif.Model.C01Input
 namespace WhVerif.Driver.C01
@@ -117,6 +118,23 @@ def getInst (j : Json) : Got :=
 
 def rejected (why : String) : Json := Json.mkObj [("rejected", Json.str why)]
 
+def srJson (sr : List (Option (List (Nat × Nat)))) : Json :=
+  ofList (fun (o : Option (List (Nat × Nat))) => match o with
+    | none => Json.null
+    | some l => ofList (fun p => ofNatList [p.1, p.2]) l) sr
+
+def parseQuery (j : Json) : Option Query :=
+  match j with
+  | Json.str "sr" => some .superReads
+  | Json.str "cost" => some .cost
+  | Json.str "part" => some .partitioning
+  | _ => none
+
+def answerJson : Answer → Json
+  | .superReads sr tau => Json.mkObj [("q", Json.str "sr"), ("superreads", srJson sr), ("tau", ofNatList tau)]
+  | .cost c => Json.mkObj [("q", Json.str "cost"), ("cost", ofNat c)]
+  | .partitioning β => Json.mkObj [("q", Json.str "part"), ("beta", ofBoolList β)]
+
 def handle (op : String) (j : Json) : Option Json :=
   if op == "c01.mkinst" then
     match (getObj? j "raw").bind parseRaw with
@@ -166,14 +184,23 @@ def handle (op : String) (j : Json) : Option Json :=
     | .ok I =>
       let k := (getNat? j "k").getD (isqrt I.ncols)
       let ord : Ord := if getStr? j "ord" == some "index" then idxOrd else grayOrd
+      -- optional `"queries": ["sr" | "cost" | "part", …]`: the accessor calls a client issues on the constructed
+      -- object, in its order, with repetitions; `"answers"` = what `Table.run` answers call by call.  `"queriesB"`:
+      -- the calls on a second object constructed from the same input (`"answersB"`).  With `"queries"` the DP value
+      -- (`optimal_score`, = the answer of `c01.cost`) is reported as `"cost"` as well.
+      let qs := (getList? j "queries").bind (fun l => l.mapM parseQuery)
+      let qsB := (getList? j "queriesB").bind (fun l => l.mapM parseQuery)
+      let score : Option Nat := if qs.isSome then dpCost I else none
+      let costField : List (String × Json) := if qs.isSome then [("cost", ofOptNat score)] else []
       match ckptPathK I ord k with
-      | none => some (Json.mkObj [("k", ofNat k), ("path", Json.null)])
+      | none => some (Json.mkObj ([("k", ofNat k), ("path", Json.null)] ++ costField))
       | some path =>
-        some (Json.mkObj [("k", ofNat k), ("path", ofList (fun p => ofNatList [p.1, p.2]) path),
+        let run (qs : Option (List Query)) : Json := match qs, score with
+          | some qs, some c => ofList answerJson (({ score := c, path := path, iter := 0 } : Table).run I qs).2
+          | _, _ => Json.null
+        some (Json.mkObj ([("k", ofNat k), ("path", ofList (fun p => ofNatList [p.1, p.2]) path),
           ("beta", ofBoolList (partOf I path)), ("tau", ofNatList (path.map (·.2))),
-          ("superreads", ofList (fun (o : Option (List (Nat × Nat))) => match o with
-            | none => Json.null
-            | some l => ofList (fun p => ofNatList [p.1, p.2]) l) (superReadsOf I path))])
+          ("superreads", srJson (superReadsOf I path)), ("answers", run qs), ("answersB", run qsB)] ++ costField))
   else if op == "c01.cost32" then
     -- the DP in the code's 32-bit arithmetic with UINT_MAX as infinity, and the no-overflow bound
     match getInst j with
